@@ -112,7 +112,15 @@ def run(ctx):
                     sa = Xg.cast(sym_bv('a', wi_[0], wi_[1]), {8: 'signed char', 16: 'short', 32: 'int', 64: 'long'}[W_] if (wi_[1] or W_ > wi_[0]) else {8: 'unsigned char', 16: 'unsigned short', 32: 'unsigned int', 64: 'unsigned long'}[W_])
                     sb = Xg.cast(sym_bv('b', wi_[0], wi_[1]), {8: 'signed char', 16: 'short', 32: 'int', 64: 'long'}[W_] if (wi_[1] or W_ > wi_[0]) else {8: 'unsigned char', 16: 'unsigned short', 32: 'unsigned int', 64: 'unsigned long'}[W_])
                     cands.append(u_op('mod', sa.b, sb.b, W_, commutative=False)[:wi_[0]])
-                ok = list(na.b[:wi_[0]]) == list(sym_bv('b', wi_[0], wi_[1]).b) and list(nb.b[:wi_[0]]) in cands and ret_expr(f) is not None and N(ret_expr(f)) == 'a'
+                rets_ = [r_ for r_ in walk(body) if r_.get('kind') == 'ReturnStmt' and kids(r_)]
+                final_ok = bool(rets_) and rets_[-1].get('_off', 0) > lp[0].get('_off', 0) and N(kids(rets_[-1])[0]) == 'a' and rets_[-1].get('_p') is body
+                early_ok = True
+                for r_ in rets_[:-1]:
+                    # an early exit may only state gcd(a, 0) = a or gcd(0, b) = b
+                    fs_ = {(N(x_[0]), x_[1], N(x_[2])) for x_ in [relation(n_, p_) for n_, p_ in atoms(path_facts(r_))] if x_}
+                    v_ = N(kids(r_)[0])
+                    early_ok = early_ok and r_.get('_off', 0) < lp[0].get('_off', 0) and ((v_ == 'a' and (('b', '==', '0') in fs_ or ('0', '==', 'b') in fs_)) or (v_ == 'b' and (('a', '==', '0') in fs_ or ('0', '==', 'a') in fs_)))
+                ok = list(na.b[:wi_[0]]) == list(sym_bv('b', wi_[0], wi_[1]).b) and list(nb.b[:wi_[0]]) in cands and final_ok and early_ok
                 why = 'one turn of the gcd loop does not map (a, b) to (b, a mod b), or the result is not a'
             except Unsupported as e_:
                 ctx.undecided(R, 'gcd<%s>|euclid' % t, f, 'the gcd loop body is outside the supported statement forms (%s)' % e_)
@@ -216,7 +224,24 @@ def run(ctx):
                 terms = sorted('(' + ' * '.join(sorted(['%s.%s' % (a_, c), '%s.%s' % (b_, c)])) + ')' for c in comps)
                 ctx.check(e == '(' + ' + '.join(terms) + ')', R, '%s|%s|sum-of-products' % (lab0, nm), f, 'sum over components of %s.c * %s.c' % (a_, b_), '%s is %s' % (nm, e))
         atf = ms.get('at', [None])[0]
+        at_eval = None
         if atf is not None:
+            # at(i) evaluated (E-TABLE) for every component index: it must yield the i-th component
+            from peval import PEval as _PEa, Vec as _Vec, Ord as _Ord, Undecided as _PUa, Fault as _PFa
+            rec_ = w.record_of(atf)
+            order_ = [c['name'] for c in sorted([c for c in walk(rec_) if c.get('kind') == 'FieldDecl' and c.get('name') in comps], key=lambda c: c.get('_off', 0))]
+            try:
+                got_ = []
+                for i_ in range(n):
+                    r_ = _PEa([w]).call_with(atf, [i_], this=_Vec('this', list(order_)))
+                    got_.append(order_[r_.idx] if isinstance(r_, _Ord) else repr(r_))
+                at_eval = (got_ == list(comps) and order_ == list(comps), got_)
+            except (_PUa, _PFa) as e_:
+                at_eval = None
+        if atf is not None and at_eval is not None:
+            ctx.check(at_eval[0], R, lab0 + '|at|array-view', atf, 'at(i) yields component i for i = 0..%d (%s)' % (n - 1, ', '.join(comps)),
+                      'at(i) yields %s for i = 0..%d; the components are %s' % (at_eval[1], n - 1, list(comps)))
+        elif atf is not None:
             e = strip(ret_expr(atf))
             ok = e.get('kind') == 'ArraySubscriptExpr' and N(e['inner'][1]) == params_of(atf)[0]['name'] and any(x.get('kind') == 'CXXReinterpretCastExpr' for x in walk(e['inner'][0])) and any(x.get('kind') == 'CXXThisExpr' for x in walk(e['inner'][0]))
             rec = w.record_of(atf)
